@@ -399,6 +399,7 @@ func (u *Upstream) Req(token string) *UReq {
 // ReplyOpt selects how a held request is answered.
 type ReplyOpt struct {
 	ConnClose bool // HTTP: add "Connection: close" and close the connection after the response
+	Linger    bool // with ConnClose: announce the close but leave the socket open (the pool itself has to close it)
 	GoAway    bool // bolt: send a GoAway frame on the connection before the response
 }
 
@@ -413,7 +414,7 @@ func (u *Upstream) Reply(token string, opt ReplyOpt) error {
 	uc := u.conns[r.Conn]
 	r.Answered = true
 	uc.Outstanding--
-	if opt.ConnClose {
+	if opt.ConnClose && !opt.Linger {
 		uc.SelfClosed = true
 	}
 	u.changed()
@@ -439,7 +440,7 @@ func (u *Upstream) Reply(token string, opt ReplyOpt) error {
 			ClassLen: len(class), HeaderLen: len(hdr), ContentLen: len(body)}, class, hdr, body)...)
 	}
 	err := uc.write(out)
-	if opt.ConnClose {
+	if opt.ConnClose && !opt.Linger {
 		_ = uc.c.Close()
 	}
 	return err
